@@ -213,3 +213,25 @@ package cluster
 //@   ensures [no-deadline-of-its-own] !called("SetReadDeadline") && !called("SetDeadline")
 //@   loop 1 invariant !called("SetReadDeadline") && !called("SetDeadline")
 //@   noeffect tlsConn).read rcvTLSConn
+
+// ---- C19: one frame = one write. The length prefix and the message go out in a single Write call on the connection
+// (whose lock covers exactly one call), so frames of concurrent senders on a pooled connection never interleave; the
+// prefix announces the encoded message's length, which is what the receiving side reads.
+//@ func (*tlsConn).writePacket
+//@   props C19
+//@   nosafe
+//@   after call proto.Marshal$ assume res1 == nil ==> fresh(res0)
+//@   after call fmt.Errorf assume res0 != nil
+//@   at call tlsConn).Write assert [prefix-and-message-in-one-write] arg0 == conn && count("tlsConn).Write") == 0 && len(arg1) == uint32length + len(ret("proto.Marshal$")) && ret1("proto.Marshal$") == nil
+//@   at call PutUint32 assert [prefix-announces-the-message_s-length] arg2 == len(ret("proto.Marshal$"))
+//@   ensures [an-encoding-error-sends-nothing] ret1("proto.Marshal$") != nil ==> result != nil && !called("tlsConn).Write")
+//@   ensures [exactly-one-write-and-its-verdict] ret1("proto.Marshal$") == nil ==> count("tlsConn).Write") == 1 && result == ret1("tlsConn).Write")
+//@   noeffect tlsConn).Write
+//@ func (*tlsConn).writeStream
+//@   props C19
+//@   nosafe
+//@   after call proto.Marshal$ assume res1 == nil ==> fresh(res0)
+//@   after call fmt.Errorf assume res0 != nil
+//@   at call tlsConn).Write assert [prefix-and-message-in-one-write] arg0 == conn && count("tlsConn).Write") == 0 && len(arg1) == uint32length + len(ret("proto.Marshal$")) && ret1("proto.Marshal$") == nil
+//@   ensures [exactly-one-write-and-its-verdict] ret1("proto.Marshal$") == nil ==> count("tlsConn).Write") == 1 && result == ret1("tlsConn).Write")
+//@   noeffect tlsConn).Write
